@@ -1,5 +1,6 @@
 import SaphyrModel.Sc.Scan2
 import SaphyrModel.Proofs.BlockLit
+import SaphyrModel.Proofs.BlockLitToken
 /-! # C05 — Block scalars (function-level theorems)
 
 **Proved** (string input, for every list of content lines, every indentation ≥ 1, every accumulated prefix):
@@ -15,8 +16,14 @@ import SaphyrModel.Proofs.BlockLit
   break; the spaces in front of a line are skipped up to the content indentation, no further;
 * `readBreak_appends_lf` — whichever break was consumed, one line feed is appended.
 
+* `literal_block_scalar_token` — **the whole scalar**: from just after the `|`, with the header ``, `-` or `+`,
+  any spelling of the break that ends the header line, the indentation detected from the first content line,
+  any number of content lines each ended by its own spelling of a break: the scanner returns the token of a
+  literal scalar whose text is the lines joined by line feeds and chomped as the header says (strip — no final
+  break; clip, keep — one), spanning from the first content line to column 0 of the line after the last.
+
 **Not proved**: folded style (joining of adjacent non-indented lines), blank and more- or less-indented line
-bookkeeping between content lines, indentation auto-detection and the header, the end-of-stream cases. For
+bookkeeping between content lines, explicit indentation indicators, the end-of-stream cases. For
 those the check relies on the exhaustive enumeration of line lists against the independent §8.1 reference and
 on the correspondence. -/
 namespace SaphyrModel.C05
@@ -73,5 +80,41 @@ theorem indentation_skipped (ind : Nat) (u : Sc) (hk : u.inp.kind = .str) :
 example : GoodLine "a b".toList ∧ GoodLine "  more indented".toList ∧
     restLines 2 ["x".toList] "k: v".toList = "  x\nk: v".toList ∧ joinLines "a".toList ["b".toList, "c".toList] = "a\nb\nc".toList := by
   refine ⟨⟨by decide, by decide⟩, ⟨by decide, by decide⟩, by decide, by decide⟩
+
+open SaphyrModel.C14L SaphyrModel.C05T in
+/-- **A whole literal block scalar is scanned to the token the specification prescribes — for every list of
+    content lines.** The scanner stands just after the `|` of a literal block scalar (string input, line `L`,
+    parent indentation `I`). What follows is: the header `hd` (nothing, `-` or `+`); a line break in any spelling;
+    a first content line `l` indented by `ind ≥ 1` spaces (deeper than the parent, not starting with a space)
+    and any number of further lines `ls` indented alike (these may start with more spaces: they are content);
+    every line is non-empty, free of breaks and NUL, and ends with its own spelling of a break; then text that
+    does not start with a space or a break. The scanner either runs out of the fuel it was given or returns a
+    token that is a *literal scalar* whose text is exactly the lines joined by single line feeds, followed by one
+    line feed unless the header says strip; the token starts on line `L + 1` in column `ind` and ends in column 0
+    of the line after the last content line, where the scanner now stands in front of the rest. -/
+theorem literal_block_scalar_token (sm : Marker) (hd : Hdr) (b0 : Brk) (ind : Nat) (hind : ind ≠ 0) (tail : Str)
+    (ht1 : tail.headD '\x00' ≠ ' ') (ht2 : isBreak (tail.headD '\x00') = false) (ls : List (Str × Brk)) (l : Str) (b : Brk)
+    (hl : GoodLine l) (hl1 : l.headD '\x00' ≠ ' ') (hls : ∀ p ∈ ls, GoodLine p.1) (u : Sc) (L : Nat)
+    (hI : (u.indent + 1).toNat ≤ ind) (hk : u.inp.kind = .str) (hline : u.mark.line = L)
+    (hi : u.inp.iter = hd.txt ++ (b0.txt ++ (List.replicate ind ' ' ++ (l ++ (b.txt ++ restLinesB ind ls tail))))) :
+    (∃ p, scanBlockScalarBody true sm u = .panic p) ∨
+    ∃ tok u', scanBlockScalarBody true sm u = .ok (tok, u') ∧
+      tok.ty = .scalar .literal (chomped hd.chomp (joinLines l (ls.map Prod.fst))) ∧
+      tok.span.start.line = L + 1 ∧ tok.span.start.col = ind ∧
+      tok.span.stop.line = L + 1 + ls.length + 1 ∧ tok.span.stop.col = 0 ∧
+      u'.inp.iter = tail ∧ u'.mark.line = L + 1 + ls.length + 1 ∧ u'.mark.col = 0 := by
+  rcases literal_block_token sm hd b0 ind hind tail ht1 ht2 ls l b hl hl1 hls u L u.mark.col u.indent hI
+      ⟨hk, hi, hline, rfl, rfl⟩ with h | ⟨tok, u', hok, ⟨h1, h2, h3, h4, h5⟩, _, h7, h8, h9⟩
+  · exact Or.inl h
+  · exact Or.inr ⟨tok, u', hok, h1, h2, h3, h4, h5, h7, h8, h9⟩
+
+/-- non-vacuity: `|-`, CR LF, then the lines `ab` (LF) and ` c` (lone CR) at indentation 2 under a parent at
+    indentation 0, then `x`: the token is the literal scalar `ab\n c` on lines 2–4 -/
+example :
+    (match scanBlockScalarBody true ⟨4, 1, 3⟩
+        { mkSc .str 0 ['-','\r','\n',' ',' ','a','b','\n',' ',' ',' ','c','\r','x'] with indent := 0, mark := ⟨5, 1, 4⟩ } with
+     | .ok (tok, u') => decide (tok.ty = .scalar .literal ['a','b','\n',' ','c']) && tok.span.start.line == 2 &&
+         tok.span.start.col == 2 && tok.span.stop.line == 4 && tok.span.stop.col == 0 && decide (u'.inp.iter = ['x'])
+     | _ => false) = true := by decide +kernel
 
 end SaphyrModel.C05
